@@ -28,7 +28,7 @@ CLAIMED = {
          "(six kinds the optimizer rewrites) and constant arithmetic after ternary/if joins; 16 templates whose integer literals are symbolic in [0,70000] (injected at AST level), so the inline limit 65534 and every fold condition are decided by the solver.", "4 C03"),
  "C04": ("Bounded symbolic execution of the reflection layer: a struct with one field per supported kind (all leaf values symbolic, slices of length <= 2/3, two field orders, by value and by pointer), shadowing variables, unknown names, legacy $ prefix; "
          "a struct with 14 unsupported kinds (Run and Execute must not panic, no nil object); JSON-shaped nested maps; two consecutive runs on different objects.", "4 C04"),
- "C06": ("Bounded symbolic execution of 13 scope scenarios (parameter / local / foreach variable clashing with globals a and b, global assignment inside a callee, early return from foreach / while / switch / two nested loops inside a function, call before definition, recursion depth <= 3 driven by a symbolic argument, nested calls with equally named parameters, top-level loop variable) with symbolic integers and array contents, compared with a reference interpreter that implements the statement's scoping rules; "
+ "C06": ("Bounded symbolic execution of 16 scope scenarios (parameter / local / foreach variable clashing with globals a and b, global assignment inside a callee, early return from foreach / while / switch / two nested loops inside a function, call before definition, recursion depth <= 3 driven by a symbolic argument, nested calls with equally named parameters, top-level loop variable) with symbolic integers and array contents, compared with a reference interpreter that implements the statement's scoping rules; "
          "plus wrong arity, unknown function and built-in-wins cases.", "4 C06"),
  "C07": ("Histories as symbolic inputs: a script whose fault path is selected by the object's field (division by zero two calls deep, panic(), arity mismatch, unknown function, early return from nested loops in a function, constant-pool literal increment, local/foreach clash) and whose top-level loop returns early for one field value "
          "is run on k = 2 (quick) / 3 objects with symbolic fields - the solver chooses which runs fault - and then on one more object; a freshly prepared evaluator given the same persistent variables must agree on result, error, host calls and variables, and the number of open scopes must not grow.", "4 C07"),
@@ -39,20 +39,20 @@ CLAIMED = {
  "C09": ("Time as a symbolic variable: the context's Done channel becomes ready at poll K (K symbolic in [0,40] quick / [0,120]) or is cancelled by the host from inside its K-th callback; 8 non-terminating script shapes (top-level loops, nested foreach, unbounded recursion, loops inside functions inside loops, recursion then loop) through Run and Execute. "
          "The solver covers every cancellation moment: the run fails, the poll that saw the context done is the last one, no host callback happens after it, an already expired context prevents execution, and a script finishing before the deadline is unaffected.", "4 C09"),
  "C13": ("28 invalid fragments (unterminated string/regexp/block/parameter list/switch, missing operands, assignment and compound assignment to non-variables, local outside a function, nested ternaries, illegal characters incl. NUL, case outside switch, two defaults, malformed foreach) with symbolic string bodies, digits and identifier letters, "
-         "placed in 21 enclosing contexts nested to depth 2 (quick) / 3; Prepare must return an error and the same contexts with a valid fragment must be accepted (vacuity guard); plus token-boundary truncations of valid programs with an open bracket.", "4 C13"),
- "C14": ("The lexer, parser and compiler executed on symbolic script bytes: string literals in both quote styles whose body is up to 3 (quick) / 4 characters, each any ASCII byte 1..127 or a multi-byte character, compared with a reference unescape; regexp literals (pattern and i/m flags reach the constant pool unchanged); integer literals of up to 4 / 9 symbolic digits (value = sum of digits, decided by the solver), decimals, ranges; "
+         "placed in 24 enclosing contexts nested to depth 2 (quick) / 3; Prepare must return an error and the same contexts with a valid fragment must be accepted (vacuity guard); plus token-boundary truncations of valid programs with an open bracket.", "4 C13"),
+ "C14": ("The lexer, parser and compiler executed on symbolic script bytes: string literals in both quote styles whose body is up to 3 (quick) / 4 characters, each any ASCII byte 1..127 or a multi-byte character, compared with a reference unescape; regexp literals (pattern and i/m flags reach the constant pool unchanged); integer literals of up to 4 / 5 symbolic digits and the int64 boundary 92233720368547758dd (value = sum of digits, decided by the solver), decimals, ranges; "
          "division-vs-regexp after 18 kinds of preceding text; token sequences with symbolic whitespace and // comments in the gaps; termination of NextToken for every byte string of length <= 2 / 3.", "4 C14"),
  "C20": ("API: Run against Execute for values of all types and provenances incl. a host function returning nothing, run-time errors and scripts running off the end; SetVariable/GetVariable round trips for all types in three call orders, also against objects with a same-named field; host functions of arity 0..3 with symbolic distinct arguments and all result types incl. void; NoOptimize leaves the compiler's output untouched byte for byte. "
-         "Driver (harness in package main of cmd/evalfilter): runCmd is driven through its real Arguments(flag.FlagSet)+Execute with 14 scripts x 6 JSON documents (absent, valid, invalid, wrong shape, unreadable) x -no-optimizer x -timeout, and its captured standard output must be the line built from what Execute returns for the same script and decoded document (or the error line); lex, parse, bytecode and run return normally on every script text of <= 2 (quick) / 3 symbolic bytes over the lexer's alphabet. Files, JSON decoding of concrete text and context.WithTimeout are stubs; the built binary as a process, main's os.Exit and the subcommands dispatcher are outside.", "4 C20"),
+         "Driver (harness in package main of cmd/evalfilter): runCmd is driven through its real Arguments(flag.FlagSet)+Execute with 16 scripts x 7 JSON documents (incl. % in values) (absent, valid, invalid, wrong shape, unreadable) x -no-optimizer x -timeout, and its captured standard output must be the line built from what Execute returns for the same script and decoded document (or the error line); lex, parse, bytecode and run return normally on every script text of <= 2 (quick) / 3 symbolic bytes over the lexer's alphabet. Files, JSON decoding of concrete text and context.WithTimeout are stubs; the built binary as a process, main's os.Exit and the subcommands dispatcher are outside.", "4 C20"),
  "C12": ("The real parser is run on every pair (quick) / triple (thorough) of the 18 binary operators, with prefix operators before and index/call after one operand, and its tree is compared structurally with an independent precedence-climbing parser parameterised only by the statement's binding order; "
          "minimal, redundant and full parenthesisations of a OP1 b OP2 c over 12 operators are executed on symbolic integers and must agree with each other and with the language definition of the implied grouping (solver, all operand values); ternary arms with and without redundant parentheses, nested ternaries rejected.", "4 C12"),
  "C18": ("A bytecode verifier (decoder, control-flow graph, abstract stack-depth interpretation over all CFG paths whether or not an input can take them) is applied to the main body and every function body, both as compiled and as the machine will run them (public walkers, optimizer on and off), for every program of the control-flow and scope generators, "
          "15 templates whose integer literals are symbolic in [0,70000] at AST level (the solver picks operand bytes that look like opcodes and values on either side of the inline limit) and scripts with 20..27 constants before a function whose last instruction refers to the newest constant. Programs with more than 64 KiB of code (16-bit operand overflow) are outside the bound.", "4 C18"),
  "C19": ("Map-iteration order as a nondeterministic stub: every range over a Go map and every reflect MapKeys in lexer, parser, compiler, VM, objects and built-ins returns an arbitrary permutation (all permutations for maps of <= 4 entries, four representative orders above; one order per map object and size). 14 scripts (hash literals with alike-printing and duplicate keys, keys(), foreach, string()/print of nested hashes, three functions, map-typed host objects) are prepared and run twice under insertion order and again under arbitrary orders: constants, main and function code, results, host calls and output must be identical. Counterexamples are replayed natively by repetition (up to 300 tries).", "4 C19"),
  "C10": ("Safety monitor inside the symbolic executor: it has no model for any function of os (other than Getenv and writes to standard output), os/exec, os/user, net*, syscall, io/fs, io/ioutil, plugin; a path that reaches one is a counterexample, which the native twin then confirms under strace (system calls diffed against a benign baseline; the time-zone database, /proc and /sys are allowed). "
-         "Sweep: every built-in that environment.New() registers (read at run time) with 0..3 arguments of all 8 types incl. hostile strings (paths, URLs, format strings); the name given to getenv is symbolic (2..5 upper-case letters, variable unset). Completeness guard: every call site of such a primitive in the library (from the SSA) must have been reached, otherwise the run says so. The monitor is also active in every other check.", "4 C10"),
+         "Sweep: every built-in that environment.New() registers (read at run time) with 0..3 arguments of all 8 types incl. hostile strings (paths, URLs, format strings); the name given to getenv is symbolic (2..5 upper-case letters, variable unset) and every other variable of the process environment that a built-in asks for is unset or holds a path (the solver picks; exported to the native twin). Completeness guard: every call site of such a primitive in the library (from the SSA) must have been reached, otherwise the run says so. The monitor is also active in every other check.", "4 C10"),
  "C11": ("Interleavings as solver variables: 2 (quick) / 3 goroutines (Run on one shared evaluator; or New+Prepare+Run on separate evaluators) are executed by the engine in every order with all heap-cell and map accesses and all mutex operations logged; for every conflicting pair of accesses the SMT solver is asked for a schedule - timestamps per event, program order, mutual exclusion of critical sections on the same mutex, every lock-protected read still seeing the write it saw - in which the two are adjacent (a data race). "
-         "Every predicted race is replayed with real goroutines under go test -race. Also: each object gets the sequential verdict and a per-run counter loses no update in every explored order. Six scripts using fields, variables, regexps, built-ins, foreach and a user function.", "4 C11"),
+         "Every predicted race is replayed with real goroutines under go test -race. Also: each object gets the sequential verdict and a per-run counter loses no update in every explored order. Eight scripts using fields, variables, regexps, built-ins, foreach, a user function, hash literals with string keys and a nested host map.", "4 C11"),
 }
 
 TECH = "bounded symbolic execution of the repository's go/ssa (own SSA interpreter fork) with SMT (z3/cvc5) deciding each path assertion; native replay of models"
